@@ -1,6 +1,38 @@
--- shard 17 of the closeness / tick-gap sweep (C06 (c), (e)): |tick| in [557056, 589824)
+-- shard 17 of the closeness / tick-gap sweep (C06 (c), (e)): |tick| in [557056, 589824), 16 blocks of 2^11
 import Proofs.Lemmas.ClosePred
 namespace Demeter.TickClose
 set_option maxRecDepth 100000 in
-theorem close_shard_17 : chkN closeSweepPred 557056 shardBits = true := by decide +kernel
+theorem close_blk_557056 : chkN closeSweepPred 557056 11 = true := by decide +kernel
+set_option maxRecDepth 100000 in
+theorem close_blk_559104 : chkN closeSweepPred 559104 11 = true := by decide +kernel
+set_option maxRecDepth 100000 in
+theorem close_blk_561152 : chkN closeSweepPred 561152 11 = true := by decide +kernel
+set_option maxRecDepth 100000 in
+theorem close_blk_563200 : chkN closeSweepPred 563200 11 = true := by decide +kernel
+set_option maxRecDepth 100000 in
+theorem close_blk_565248 : chkN closeSweepPred 565248 11 = true := by decide +kernel
+set_option maxRecDepth 100000 in
+theorem close_blk_567296 : chkN closeSweepPred 567296 11 = true := by decide +kernel
+set_option maxRecDepth 100000 in
+theorem close_blk_569344 : chkN closeSweepPred 569344 11 = true := by decide +kernel
+set_option maxRecDepth 100000 in
+theorem close_blk_571392 : chkN closeSweepPred 571392 11 = true := by decide +kernel
+set_option maxRecDepth 100000 in
+theorem close_blk_573440 : chkN closeSweepPred 573440 11 = true := by decide +kernel
+set_option maxRecDepth 100000 in
+theorem close_blk_575488 : chkN closeSweepPred 575488 11 = true := by decide +kernel
+set_option maxRecDepth 100000 in
+theorem close_blk_577536 : chkN closeSweepPred 577536 11 = true := by decide +kernel
+set_option maxRecDepth 100000 in
+theorem close_blk_579584 : chkN closeSweepPred 579584 11 = true := by decide +kernel
+set_option maxRecDepth 100000 in
+theorem close_blk_581632 : chkN closeSweepPred 581632 11 = true := by decide +kernel
+set_option maxRecDepth 100000 in
+theorem close_blk_583680 : chkN closeSweepPred 583680 11 = true := by decide +kernel
+set_option maxRecDepth 100000 in
+theorem close_blk_585728 : chkN closeSweepPred 585728 11 = true := by decide +kernel
+set_option maxRecDepth 100000 in
+theorem close_blk_587776 : chkN closeSweepPred 587776 11 = true := by decide +kernel
+theorem close_shard_17 : chkN closeSweepPred 557056 shardBits = true :=
+  (chkN_join _ 557056 14 (chkN_join _ 557056 13 (chkN_join _ 557056 12 (chkN_join _ 557056 11 close_blk_557056 close_blk_559104) (chkN_join _ 561152 11 close_blk_561152 close_blk_563200)) (chkN_join _ 565248 12 (chkN_join _ 565248 11 close_blk_565248 close_blk_567296) (chkN_join _ 569344 11 close_blk_569344 close_blk_571392))) (chkN_join _ 573440 13 (chkN_join _ 573440 12 (chkN_join _ 573440 11 close_blk_573440 close_blk_575488) (chkN_join _ 577536 11 close_blk_577536 close_blk_579584)) (chkN_join _ 581632 12 (chkN_join _ 581632 11 close_blk_581632 close_blk_583680) (chkN_join _ 585728 11 close_blk_585728 close_blk_587776))))
 end Demeter.TickClose
